@@ -2246,7 +2246,18 @@ func (w *Writer) writePack4x8(mathExpr ir.ExprMath) error {
 				w.write(", 0, 255)")
 			}
 		} else {
-			return w.writeExpression(mathExpr.Arg)
+			// The operand is subscripted below: a binary expression or a select written inline
+			// needs its own parentheses (`(a | b)[0]`, not `a | b[0]`).
+			parens := w.needsParensInContext(mathExpr.Arg)
+			if parens {
+				w.write("(")
+			}
+			if err := w.writeExpression(mathExpr.Arg); err != nil {
+				return err
+			}
+			if parens {
+				w.write(")")
+			}
 		}
 		return nil
 	}
